@@ -159,7 +159,10 @@ def main(tier, seed):
     c = ops.create
     cases = []
     layouts = [("flat", FLAT, [c("", ["xxh64"])], ["xxh64"]), ("flat-2formats", FLAT, [c("", ["md5"]), c("", ["md5", "c4"])], ["md5"]),
-               ("flat-other-format", FLAT, [c("", ["md5"])], ["xxh64"])]
+               ("flat-other-format", FLAT, [c("", ["md5"])], ["xxh64"]),
+               # every file first recorded in another format, the rename generation asks for a fourth one
+               ("flat-mixed-formats", FLAT, [c("", ["xxh64"], sf=["p/a.txt"]), c("", ["md5"], sf=["p/b.txt"]), c("", ["sha1"], sf=["q/c.txt"])],
+                ["c4"])]
     if tier == "thorough":
         layouts.append(("flat4", FLAT4, [c("", ["xxh64"])], ["xxh64"]))
     for name, tree, prep, fmts in layouts:
@@ -221,7 +224,8 @@ def main(tier, seed):
     cov = {"states": len(states), "transitions": trans, "traces_validated_against_impl": trans, "exhaustive": True, "cases": len(cases),
            "rule": "sealed tree with 3 (thorough 4) files of pairwise distinct content in two directories: every assignment "
                    "file -> {stay, rename in place, move to the other directory, move+rename} (fresh target names, so no swaps), "
-                   "with and without an unrelated new file, one- and two-generation histories, a nested child history, and chained "
+                   "with and without an unrelated new file, one- and two-generation histories, a history in which every file was first "
+                   "recorded in a different format and the rename generation asks for yet another one, a nested child history, and chained "
                    "renames over 2 (thorough 3) generations; per rename step: plain create => 10 naming the old paths and verify "
                    "!= 0; create -dr => exit 0, new path recorded with previousPath = former path, nothing reported missing; then "
                    "verify / diff / create accept the tree; altering a renamed file => verify 11"}
